@@ -36,7 +36,9 @@ def examples(tier):
 def strategy(draw, tier="quick"):
     boost = draw(st.sampled_from([True, False, False]))
     g = draw(gen.grammar(regimes=REGIMES, boost=boost, symbols=True, **gen.size(tier)))
-    return {"g": g, "perm": draw(st.sampled_from([0, 1, "rev"]))}
+    return {
+        "pick": draw(st.integers(0, 30)),
+        "g": g, "perm": draw(st.sampled_from([0, 1, "rev"]))}
 
 
 def rules_of(cfg):
@@ -162,3 +164,20 @@ def check(case, ctx):
             ctx.check("trim|empty", len(out) == 0, lambda: f"trim: empty language but {len(out)} rules remain")
         if name == "cnf":
             ctx.check("cnf|in_cnf", ctx.call("in_cnf", new.in_cnf) is True, "cnf: in_cnf() is not True")
+
+    # ---- trimming a re-weighted copy of a trimmed grammar (map_values with a map that sends some
+    # weights to zero drops those rules; the copy must be trimmed on its own merits)
+    for first in ("trim", "cotrim", "nullaryremove"):
+        t = ctx.call("reweight." + first, lambda: getattr(cfg, first)())
+        if isinstance(t, LibRaised) or not t.rules:
+            continue
+        target = t.rules[case.get("pick", 0) % len(t.rules)].w
+        mv = ctx.call("map_values", t.map_values, lambda w: (cfg.R.zero if w == target else w), cfg.R)
+        if isinstance(mv, LibRaised):
+            continue
+        for name, pred in (("trim", viol_trim), ("cotrim", viol_cotrim)):
+            res = ctx.call("reweight.then." + name, lambda: getattr(mv, name)())
+            if isinstance(res, LibRaised):
+                continue
+            bad = pred(rules_of(res), set(res.V), res.S)
+            ctx.check(f"{name}|after_map_values", bad is None, lambda: f"{first}() -> map_values (rules of weight {target} dropped) -> {name}(): {bad}")
